@@ -18,6 +18,15 @@ class SrvError(Exception):
     dbusErrorName = 'org.ex.SrvError'
 
 
+def misfit(arg):
+    """calls in Raises with an even id do not raise: their method returns a value that does not fit the declared
+    return signature - the caller must still get an error, not silence"""
+    return int(arg[3:]) % 2 == 0
+
+
+BAD = {'Echo': ['r', 'not a struct'], 'Words': 7, 'Pair': ('only-one',)}
+
+
 def build_object(raises, log):
     iface = interface.DBusInterface('org.ex.Echo', interface.Method('Echo', arguments='sa{sv}', returns='s(is)'),
                                     interface.Method('Words', arguments='sa{sv}', returns='as'),
@@ -44,6 +53,8 @@ def build_object(raises, log):
         def dbus_Echo(self, s, extra):
             log.append((s, extra))
             if s in raises:
+                if misfit(s):
+                    return BAD['Echo']
                 raise SrvError('boom:' + s)
             return ['r:' + s, (len(extra), 'é' + s)]
 
@@ -51,6 +62,8 @@ def build_object(raises, log):
         def echo_words(self, s, extra):           # one array, holding exactly one element
             log.append((s, extra))
             if s in raises:
+                if misfit(s):
+                    return BAD['Words']
                 raise SrvError('boom:' + s)
             return ['w:' + s]
 
@@ -58,6 +71,8 @@ def build_object(raises, log):
         def echo_pair(self, s, extra):            # one struct
             log.append((s, extra))
             if s in raises:
+                if misfit(s):
+                    return BAD['Pair']
                 raise SrvError('boom:' + s)
             return ('p:' + s, 'q')
     return Srv('/obj'), iface
@@ -77,8 +92,13 @@ class E2EDriver:
         assert self.net.ready(self.a) and self.net.ready(self.x), 'clients did not reach the bus'
         ca, cx = self.net.clients[self.a][0], self.net.clients[self.x][0]
         self.runs = []
+        self.decoy_runs = []
         obj, iface = build_object(self.raises, self.runs)
         cx.exportObject(obj)
+        # every other client on the bus (the caller included) exports an object of its own at the same path
+        for ci, cl in enumerate(self.net.clients):
+            if ci != self.x:
+                cl[0].exportObject(build_object(self.raises, self.decoy_runs)[0])
         res = []
         cx.requestBusName('org.ex.Srv').addBoth(res.append)
         self.net.run()
@@ -170,8 +190,11 @@ class E2EDriver:
                 want = {'Echo': ['r:' + arg, [2, 'é' + arg]], 'Words': ['w:' + arg], 'Pair': [['p:' + arg, 'q']]}[METHOD[k % 3]]
                 if kind == 'value' and v == want:
                     done.append('value')
-                elif kind == 'error' and isinstance(v.value, error.RemoteError) and v.value.errName == 'org.ex.SrvError' \
-                        and v.value.message == 'boom:' + arg:
+                elif kind == 'error' and isinstance(v.value, error.RemoteError) and not misfit(arg) and \
+                        v.value.errName == 'org.ex.SrvError' and v.value.message == 'boom:' + arg:
+                    done.append('error')
+                elif kind == 'error' and isinstance(v.value, error.RemoteError) and misfit(arg) and arg in self.raises and \
+                        v.value.errName.startswith('org.txdbus.PythonException.'):
                     done.append('error')
                 else:
                     done.append('wrong')
@@ -179,7 +202,7 @@ class E2EDriver:
         wrong = 0
         for k in self.calls:
             ran.append(sum(1 for s, e in self.runs if s == 'arg%d' % k and e == {'k': k, 'why': 'x' * (k % 3)}))
-        wrong = len(self.runs) - sum(ran)
+        wrong = len(self.runs) - sum(ran) + len(self.decoy_runs)
         from .tlaval import FnDict
         return {'q': FnDict({l: tuple({'kind': x[0], 'k': x[1]} for x in self.shadow[l]) for l in LINKS}),
                 'part': FnDict({l: self.part[l] for l in LINKS}),
@@ -307,7 +330,10 @@ def run(tier, seed):
     chk.assumptions = ['clients and bus are the real objects joined by in-memory byte links; connection setup (handshake, Hello, '
                        'RequestName, proxy creation with explicit or introspected interfaces) runs to quiescence before the modelled part',
                        'values are one fixed shape per call (string + a{sv} in, string + struct out); value fidelity is C01/C02',
-                       'a prefix delivery hands over half of the next message']
+                       'a prefix delivery hands over half of the next message',
+                       'calls in Raises with an even id return a value that does not fit the declared signature instead of raising '
+                       '(the caller must get a RemoteError org.txdbus.PythonException.*); every client other than the exporter '
+                       'exports a decoy object at the same path']
     return chk.finish(
         rule='TLC checks safety and, under fair delivery, completion of 1-2 (3) concurrent calls over all delivery interleavings with '
              'read splitting and coalescing on the four links; every edge and random walks of the graph are replayed on real '
